@@ -103,6 +103,11 @@ func makeLog(rng *rand.Rand, dir, name string, nwrites int, big bool) (*genLog, 
 	}
 	c := s.MustDial()
 	for i := 0; i < nwrites; i++ {
+		if big && (i == 1 || i == nwrites/2 || i == nwrites-2) {
+			// at least three values longer than the loader's 0xFFFF read buffer
+			c.MustDo("SET", pick(rng, keyAlpha), pick(rng, idAlpha), "STRING", binval(rng, 66000+rng.Intn(9000)))
+			continue
+		}
 		c.MustDo(randWrite(rng, big)...)
 	}
 	c.Close()
@@ -112,6 +117,19 @@ func makeLog(rng *rand.Rand, dir, name string, nwrites int, big bool) (*genLog, 
 		return nil, err
 	}
 	os.RemoveAll(d)
+	g, err := parseLog(name, b)
+	if err != nil {
+		return nil, err
+	}
+	if big {
+		// binary values are arbitrary: put NUL bytes where the loader's reads begin and end
+		nulAtReadBoundaries(g, func(m int) int { return rng.Intn(6) })
+		return parseLog(name, g.bytes)
+	}
+	return g, nil
+}
+
+func parseLog(name string, b []byte) (*genLog, error) {
 	g := &genLog{name: name, bytes: b}
 	rest := b
 	for len(rest) > 0 {
@@ -128,6 +146,72 @@ func makeLog(rng *rand.Rand, dir, name string, nwrites int, big bool) (*genLog, 
 		g.ends = append(g.ends, len(b)-len(rest))
 	}
 	return g, nil
+}
+
+const readSize = 0xFFFF // var packet [0xFFFF]byte in loadAOF
+
+// nulAtReadBoundaries overwrites, inside the payload of `SET k id STRING v` values only (lengths and
+// framing stay as they are), the bytes at file offsets m-1 / m / m+1 for every multiple m of the
+// loader's read size, following variant(m): 0 none, 1 {m}, 2 {m,m+1}, 3 {m-1,m,m+1}, 4 {m-1}, 5 {m+1,m+2,m+3} + {m}.
+func nulAtReadBoundaries(g *genLog, variant func(m int) int) int {
+	placed := 0
+	for m := readSize; m < len(g.bytes); m += readSize {
+		var offs []int
+		switch variant(m) {
+		case 1:
+			offs = []int{m}
+		case 2:
+			offs = []int{m, m + 1}
+		case 3:
+			offs = []int{m - 1, m, m + 1}
+		case 4:
+			offs = []int{m - 1}
+		case 5:
+			offs = []int{m, m + 1, m + 2, m + 3}
+		}
+		for _, o := range offs {
+			for i, cmd := range g.cmds {
+				if len(cmd) != 5 || !strings.EqualFold(cmd[0], "SET") || !strings.EqualFold(cmd[3], "STRING") {
+					continue
+				}
+				lo := g.ends[i] - 2 - len(cmd[4])
+				if o >= lo && o < g.ends[i]-2 {
+					g.bytes[o] = 0
+					placed++
+				}
+			}
+		}
+	}
+	return placed
+}
+
+// directedLog: a fixed log whose 150 000-byte binary value has NUL bytes at its first and last byte,
+// in runs of three every 1000 bytes, and at / around every file offset that is a multiple of the
+// loader's read size (where a read packet starts while the carry-over buffer is non-empty).
+func directedLog(name string, variant func(m int) int) (*genLog, error) {
+	var b []byte
+	for i := 0; i < 20; i++ {
+		b = append(b, respgen.Encode("SET", "fleet", "t"+strconv.Itoa(i), "POINT", strconv.Itoa(i), strconv.Itoa(2*i))...)
+	}
+	v := make([]byte, 150000)
+	for i := range v {
+		v[i] = byte(1 + (i*7)%250)
+		if i%1000 < 3 {
+			v[i] = 0
+		}
+	}
+	v[len(v)-1] = 0
+	b = append(b, respgen.Encode("SET", "blobs", "b1", "STRING", string(v))...)
+	b = append(b, respgen.Encode("SET", "fleet", "after", "STRING", "x\x00y")...)
+	b = append(b, respgen.Encode("SET", "fleet", "torn", "FIELD", "a", "1", "FIELD", "b", "2", "POINT", "33", "-115")...)
+	g, err := parseLog(name, b)
+	if err != nil {
+		return nil, err
+	}
+	if nulAtReadBoundaries(g, variant) == 0 {
+		return nil, fmt.Errorf("directed log %s: no read boundary inside the value", name)
+	}
+	return parseLog(name, g.bytes)
 }
 
 // reference dumps: a fresh server without a log, fed the log's commands one by one
@@ -408,6 +492,34 @@ func runC04(r *hx.Result, cfg hx.Config) {
 			cases = append(cases, buildCase(g, k, z, fmt.Sprintf("%s cut@%d zeros=%v", g.name, k, z)))
 		}
 	}
+
+	// directed regression logs (run in every tier): NUL bytes of a large binary value at the file
+	// offsets where loadAOF's reads start (carry-over buffer non-empty there)
+	var directed []fcase
+	for vi, variant := range []func(m int) int{
+		func(m int) int { return 5 },
+		func(m int) int { return 1 + (m/readSize)%4 },
+		func(m int) int { return 3 },
+	} {
+		g, err := directedLog("dir"+strconv.Itoa(vi), variant)
+		if err != nil {
+			panic(err)
+		}
+		if err := g.refDumps(cfg.Work); err != nil {
+			panic(err)
+		}
+		r.Dist("log:directed")
+		n := len(g.bytes)
+		last := g.ends[len(g.ends)-2]
+		offs := []int{n, n - 30, last, last + 1, last - 1, g.ends[len(g.ends)-3], readSize + 1, readSize, readSize - 1, 2 * readSize, 2*readSize + 2, 2*readSize + 700}
+		if vi > 0 {
+			offs = offs[:7]
+		}
+		for _, k := range offs {
+			directed = append(directed, buildCase(g, k, nil, fmt.Sprintf("%s(NULs at read boundaries) cut@%d", g.name, k)))
+		}
+	}
+	cases = append(directed, cases...)
 
 	var mu sync.Mutex
 	var wg sync.WaitGroup
